@@ -162,6 +162,26 @@ def document_cycle(case):
                     mism.append("history:%s of a path that was written over returns a different document" % name)
         except BaseException as e:  # noqa
             mism.append("history: reused path raises %s: %s" % (type(e).__name__, str(e)[:120]))
+        # the name of the exchange file is not content: unusual but legal XML file names, one per document in turn
+        try:
+            global NAME_TURN
+            names = ["net.h5.nml", "cells.HDF5.xml", "a.nml.h5.exported.xml", "with space.nml", "d\u00e9j\u00e0.nml", "UPPER.NML",
+                     "no_extension", "two..dots.nml", ".hidden.nml", "h5", "x.hdf5.nml"]
+            nm = names[NAME_TURN % len(names)]
+            NAME_TURN += 1
+            odd = os.path.join(d, nm)
+            NeuroMLWriter.write(doc, odd)
+            if open(odd, "rb").read() != ref_bytes:
+                mism.append("file-name:%r: written bytes differ from cycle0.nml" % nm)
+            for name, f in (("NeuroMLLoader.load", lambda: NeuroMLLoader.load(odd)),
+                            ("read_neuroml2_file", lambda: read_neuroml2_file(odd))):
+                try:
+                    if dump(f()) != ref_dump:
+                        mism.append("file-name:%r: %s returns a different document" % (nm, name))
+                except BaseException as e:  # noqa
+                    mism.append("file-name:%r: %s raises %s: %s" % (nm, name, type(e).__name__, str(e)[:100]))
+        except BaseException as e:  # noqa
+            mism.append("file-name probe raises %s: %s" % (type(e).__name__, str(e)[:120]))
         r["entry_mismatch"] = mism
         r["text0"] = texts[0] if len(texts[0]) < 3000 else texts[0][:3000]
         r["bytes_stable"] = texts[1] == texts[2]
@@ -179,6 +199,7 @@ if P.get("mode") == "document":
     import shutil
     import tempfile
     SHARED_DIR = tempfile.mkdtemp(prefix="verif_c01_shared_")
+    NAME_TURN = 0
     try:
         out = [document_cycle(c) for c in P["cases"]]
     finally:
